@@ -1,3 +1,5 @@
 pub mod common;
 pub mod c21;
 pub mod c22;
+pub mod probe;
+pub mod hist;
